@@ -97,8 +97,8 @@ impl Axecutor {
         // imm8 sign-extended
         let offset = i.immediate8() as i8 as u64;
         let rip = self.reg_read_64(RIP.into())? as i64 as u64;
-        self.trace_jump(i, rip + offset)?;
-        self.reg_write_64(RIP.into(), rip + offset)?;
+        self.trace_jump(i, rip.wrapping_add(offset))?;
+        self.reg_write_64(RIP.into(), rip.wrapping_add(offset))?;
         Ok(())
     }
 
